@@ -1715,11 +1715,22 @@ def gen_cpassign(r, Ls, n):
         reorder2 = r.below(2)
         v1 = [r.logu(1e-2, 1e2) for _ in range(ns * ncell)]; v2 = [r.logu(1e-2, 1e2) for _ in range(ns * ncell)]
         j = r.below(ns); newv = [r.logu(1e-2, 1e2) for _ in range(ncell)]; dt = r.logu(1e-2, 1e1)
-        toks = ["cpassign", str(L), str(ns), str(ncell), str(reorder2)] + [str(x) for x in perm1] + [str(x) for x in perm2] \
+        # the State assigned onto may belong to a solver for another cell count; in a grouped layout counts of the same
+        # group have the same storage size
+        ncell2 = 0
+        if r.chance(0.5):
+            if L > 1:
+                g0 = ((ncell - 1) // L) * L
+                cand = [q for q in range(g0 + 1, g0 + L + 1) if q != ncell]
+                ncell2 = r.pick(cand) if cand else 0
+            else:
+                ncell2 = r.pick([ncell + 1, max(1, ncell - 1)])
+                if ncell2 == ncell: ncell2 = 0
+        toks = ["cpassign", str(L), str(ns), str(ncell), str(reorder2), str(ncell2)] + [str(x) for x in perm1] + [str(x) for x in perm2] \
             + [hexd(v) for v in v1] + [hexd(v) for v in v2] + [str(j)] + [hexd(v) for v in newv] + [hexd(dt)]
         meta = dict(L=L, ns=ns, ncell=ncell, v1=v1, v2=v2, j=j, newv=newv, perm1=perm1, perm2=perm2, reorder2=reorder2)
         cs.append(Case(" ".join(toks), meta, "cpassign", oracle=oracle_cpassign,
-                       tags=["cpassign", "orders_differ=%d" % int(perm1 != perm2 or reorder2 == 1)]))
+                       tags=["cpassign", "orders_differ=%d" % int(perm1 != perm2 or reorder2 == 1), "other_cell_count=%d" % int(ncell2 != 0)]))
     return cs
 
 def oracle_cpassign(c, out):
@@ -1737,7 +1748,7 @@ def oracle_cpassign(c, out):
     f = first(vals("rev"), m["v2"])
     if f: return f"after dst = src (the other direction), dst reads species s{f[0]} in cell {f[1]} as {f[2]!r}; the source holds {f[3]!r} {ctx}"
     if d.get("cons", ["0"])[0] != "1":
-        return f"after dst = src the name map and the name list of dst are not the source's (or not inverse to each other) {ctx}"
+        return f"after dst = src the name map, the name list or the SHAPE (rows/columns of the dense members) of dst are not the source's {ctx}"
     f = first(vals("after_a"), m["v1"])
     if f: return f"setting a concentration on the assigned copy changed the source: s{f[0]} cell {f[1]} {ctx}"
     exp = list(m["v1"]); exp[m["j"] * ncell:(m["j"] + 1) * ncell] = m["newv"]
